@@ -911,11 +911,31 @@ def r18_14(ctx):
              ("cubic (0,0),(3,0),(3,1),(0,2)", cubic, Fr(1, 8), False),
              ("cubic (0,0),(3,0),(3,1),(0,2)", cubic, Fr(7, 10), True),
              ("straight segment (-1,2),(5,-1)", line, Fr(2, 7), False)]
+    hook_pts = [(Fr(0), Fr(0)), (Fr(4), Fr(3)), (Fr(2), Fr(1))]
+    # points of the polynomial prolongation of the segment beyond its ends (float data): the projection is a parameter
+    # of the *segment*
+    cases += [("quadratic (0,0),(4,3),(2,1), point on its prolongation", hook_pts, Fr(11, 10), True),
+              ("quadratic (0,0),(4,3),(2,1), point on its prolongation", hook_pts, Fr(-1, 10), True),
+              ("cubic (0,0),(3,0),(3,1),(0,2), point on its prolongation", cubic, Fr(6, 5), True)]
     for label, pts, t, as_float in cases:
         if as_float:
             pts = [(float(x), float(y)) for x, y in pts]
         cv = _PolyCv.bezier(pts)
         P = _MP(*cv.at(float(t) if as_float else t))
+        if not 0 <= t <= 1:
+            try:
+                got = [float(g) for g in Runner(ctx, enter, hook, asserts=True, ext=ext).call_fn(fn, [P, cv])]
+            except (Undecided, Raised, TypeError, IndexError, ZeroDivisionError, OverflowError) as ex:
+                out.undecided(fn.qname, f"{label} at t={t}: {ex}", where=fn.where())
+                continue
+            outside = [g for g in got if not 0.0 <= g <= 1.0]
+            if outside or not got:
+                out.bad(fn.qname, "the projection leaves the parameter interval [0, 1] of the segment", where=fn.where(),
+                        detail=f"{label}: C({t}) projects onto {[round(g, 9) for g in got]} -- a point far from the segment, "
+                               f"on the prolongation of its polynomial, is then reported `in` the segment")
+            else:
+                out.ok(fn.qname, f"{label} C({t}): projected parameters stay in [0, 1]", where=fn.where())
+            continue
         try:
             got = Runner(ctx, enter, hook, asserts=True, ext=ext).call_fn(fn, [P, cv])
             got = [float(g) for g in got]
